@@ -20,13 +20,16 @@ def load_known():
     return known, fixed
 
 
+T0 = time.time()
+
+
 class Check:
     def __init__(self, pid, level, tier, technique, trusted_base=None):
         self.pid = pid
         self.level = level
         self.tier = tier
         self.technique = technique
-        self.t0 = time.time()
+        self.t0 = T0    # measured from the start of the checker process (fact loading included)
         self.obligations = []   # dicts: rule, instance, ok, detail, loc
         self.analysed = {}      # rule -> list of analysed things
         self.samples = []
@@ -109,7 +112,12 @@ class Check:
             "wall_s": round(time.time() - self.t0, 3),
             "violations": new_viol,
         }
-        with open(os.path.join(VERIF, "evidence", self.pid + ".json"), "w") as fh:
+        evdir = os.path.join(VERIF, "evidence")
+        if os.path.realpath(os.environ.get("VERIF_REPO", "/repo")) != "/repo":
+            # a run against a scratch copy never replaces the evidence of /repo itself
+            evdir = os.path.join(VERIF, "evidence", "scratch")
+            os.makedirs(evdir, exist_ok=True)
+        with open(os.path.join(evdir, self.pid + ".json"), "w") as fh:
             json.dump(ev, fh, indent=1)
         print("%s: %d obligations, %d discharged, %d known findings, %d new violations (%.1fs)" % (self.pid, n, ok, kn, new_viol, time.time() - self.t0))
         return 1 if new_viol else 0
